@@ -73,7 +73,12 @@ func runCborEnc(payload string) string {
 	w := &chunkWriter{}
 	enc := cbor.NewEncoder(w)
 	class, used := driveSink(enc, ts)
-	return fmt.Sprintf("%s %d %s %s", class, used, hexOrDash(w.buf), chunkLens(w.chunks))
+	res := fmt.Sprintf("%s %d %s %s", class, used, hexOrDash(w.buf), chunkLens(w.chunks))
+	if class == "fin" {
+		// round trip through the real decoder, with trailing bytes that must be left alone
+		res += " | rt: " + runCborDec("0 "+hex.EncodeToString(w.buf)+"0102")
+	}
+	return res
 }
 
 var cborTreeOpts = treeOpts{maxDepth: 5, maxTokens: 120, tags: true, bytes: true, keyKinds: "ssiu", indef: true, def: true, floats: true, uints: true}
@@ -157,6 +162,7 @@ func genCborEnc(g *G, tier string, emit func(string)) {
 		r := runCborEnc(p)
 		return strings.HasPrefix(r, "starved")
 	})
+	genDeep(emit)
 }
 
 var encAlphabet = []string{"{1", "{-1", "}", "[2", "[-1", "]", "n", "s6b", "x00", "bt", "i-1", "u24", "f3ff0000000000000", "#7s6b", "#7[-1", "#7{0"}
